@@ -1,7 +1,7 @@
 """C04 — script encoding and decoding are inverse and canonical; predicted size exact (DESIGN 5/C04).
 
 Proof side: coq/Properties/C04.v (ser_parse / parse_ser, script_size_ok, lex_enc, decode_total,
-decode_enc via the decoder normal form, refutation of decode_canonical with its witness).
+decode_enc via the decoder normal form, decode_canonical via lexer canonicity + parser soundness).
 Tie: the `codec` engine runs the real encoder / lexer / raw parser / three decoders on generated
 ASTs (four contexts), on systematically edited encodings, cross-context scripts, opcode soups and
 random bytes; ocaml/driver_codec (extracted from the Coq models) recomputes every observation;
@@ -162,10 +162,7 @@ def dump_stats(ctx, dump):
         elif t in ("multi", "sortedmulti", "multi_a", "sortedmulti_a"):
             k, n = int(toks[i + 1]), int(toks[i + 2])
             ks = toks[i + 3:i + 3 + n]
-            if t.endswith("_a"):
-                num_cost = 2 + (k > 16) + (n > 16)
-                surplus += num_cost - script_num_size(k) - 1
-            else:
+            if not t.endswith("_a"):     # pk_cost of multi_a is right since /repo c854851b
                 unc_all += sum(is_unc(x) for x in ks)   # pk_cost of multi is right since /repo 5d25865d
             i += 3 + n
         else:
@@ -613,6 +610,6 @@ def run(rep, tier, seed, replay):
     })
     rep.assumptions = [
         "keys are abstract: a key table (kb, d_key) with d_key (kb k) = Some k stands for Ctx::Key::from_slice / serialisation",
-        "decode_canonical is refuted on this tree (C04_decode_canonical_refuted); the oracle re-finds the witness class every run",
+        "decode_canonical is PROVED for the model of this tree (C04_decode_canonical: every accepted byte string is the encoding of the result), under denv_ok (the key table inverts key serialisation; key/hash lengths as the Rust types fix them); the former NUMEQUAL VERIFY counter-example is a regression theorem and its class (numequal-verify-split) stays in the oracle",
         "ValidationParams beyond MAX (consensus / sane switches, satisfaction-size limits) are modelled under C12; here the consensus and sane decoders are judged by the oracle only",
         "identical spending semantics is taken as identical script bytes (the Script semantics of C01 is a function of the bytes)"]
